@@ -24,7 +24,7 @@ Definition ctx_fresh (s : State) (c : CtxId) : Prop := ~ In (EvCtxCreated c) (lo
 Definition wf_op (s : State) (o : Op) : Prop :=
   match o with
   | OCall c _ _ _ _ _ _ _ _ freq _ _ _ => ctx_fresh s c /\ 0 <= freq < HEIGHT_BOUND
-  | OModCall c _ _ _ _ _ _ _ _ freq _ _ _ _ => ctx_fresh s c /\ 0 <= freq < HEIGHT_BOUND
+  | OModCall c _ _ _ _ _ _ _ _ freq _ _ md _ => ctx_fresh s c /\ 0 <= freq < HEIGHT_BOUND /\ md <> 0
   | OUpdateCtx _ _ _ _ _ freq _ _ => 0 <= freq < HEIGHT_BOUND
   | OEndBlock dt => 0 <= dt /\ height s < HEIGHT_BOUND
   | _ => True
@@ -92,7 +92,7 @@ Definition I_index (cfg : Params) (s : State) : Prop :=
      /\ get k (pricing s) = Some (parse_pricing (b_raw b))
      /\ validate_pricing (parse_pricing (b_raw b)) = true
      /\ schema_pricing (parse_pricing (b_raw b)) = true
-     /\ pr_price (parse_pricing (b_raw b)) * p_multiple cfg < INT_LIMIT)
+     /\ (b_avail b = true -> pr_price (parse_pricing (b_raw b)) * p_multiple cfg < INT_LIMIT))
   /\ (forall o svc p, In (o, svc, p) (own_bind s) ->
         exists b, get (svc, p) (binds s) = Some b /\ b_owner b = o)
   /\ (forall o p, In (o, p) (own_prov s) <-> get p (owner_of s) = Some o)
@@ -134,7 +134,8 @@ Definition I_req (s : State) : Prop :=
        /\ 0 <= rid_index r < c_breq rc
        /\ rid_height r < r_exp q
        /\ has (r_prov q) (owner_of s) = true
-       /\ has (c_svc rc, r_prov q) (binds s) = true)
+       /\ has (c_svc rc, r_prov q) (binds s) = true
+       /\ (c_super rc = true -> r_fee q = 0))
   /\ (forall r x, In (r, x) (resps s) ->
         exists q, get r (reqs s) = Some q /\ r_active q = false)
   /\ (forall c rc, get c (ctxs s) = Some rc ->
